@@ -698,6 +698,15 @@ class _Gen:
         self.prog.append(st)
         return True
 
+    def has_float(self, nid):
+        """the value contains a float: only the operations listed for floats are in the oracle's semantics"""
+        def walk(v):
+            return isinstance(v, float) or (isinstance(v, list) and any(walk(x) for x in v))
+        try:
+            return walk(self.sh.ev(nid))
+        except Exception:
+            return False
+
     def raises_now(self, nid):
         try:
             self.sh.ev(nid)
@@ -752,7 +761,7 @@ class _Gen:
                 return False
             form, ots, rt = rng.choice(rows)
             return self.push({'s': 'op', 'n': subj, 'op': form, 'args': [self.operand(o, container=True) for o in ots]}, rt)
-        if t != 'float' and rng.random() < 0.06:     # deliberately ill-typed
+        if t != 'float' and not self.has_float(subj) and rng.random() < 0.06:     # deliberately ill-typed
             form, ots, rt = rng.choice(TABLE[rng.choice(list(TABLE))])
             rt = 'any'
         else:
